@@ -539,8 +539,15 @@ class _GenerateRenderMethod:
             self.printer.writeline("loop = __M_loop = runtime.LoopStack()")
 
         # names fetched from the context come first: the argument defaults
-        # of the callables declared here may refer to them
-        for ident in sorted(to_write, key=lambda ident: ident in comp_idents):
+        # of the callables declared here may refer to them, and to the
+        # callables declared before them in the template
+        def position(ident):
+            if ident in comp_idents:
+                comp = comp_idents[ident]
+                return (1, comp.lineno, comp.pos)
+            return (0, 0, 0)
+
+        for ident in sorted(to_write, key=position):
             if ident in comp_idents:
                 comp = comp_idents[ident]
                 if comp.is_block:
